@@ -378,6 +378,6 @@ MANIFEST = {
                   'flushes the image loads and equals a logical state of that window.',
     'level_note': 'The solver enumerates scripts and configurations (feasibility only); payload is tagged concrete data and the '
                   'generalisation to all payloads rests on the code never branching on payload (stated, not proved by the solver); '
-                  'scripts <=3 ops (quick) / 5 (thorough); file model: in-order prefix persistence, atomic single writes.',
+                  'scripts <=3 ops (quick) / 5 (thorough); 9 dtype / row shape / batch size / memory layout (C, Fortran, strided) configurations; file model: in-order prefix persistence, atomic single writes.',
     'technique': 'bounded exhaustive exploration of solver-chosen operation scripts and crash points on the real code over a modelled file system',
 }
